@@ -1,10 +1,85 @@
 package props
 
 import (
+	"context"
+	"fmt"
+	"strconv"
 	"time"
 
+	"cosmossdk.io/math"
+	sdk "github.com/cosmos/cosmos-sdk/types"
+
+	ophosttypes "github.com/initia-labs/OPinit/x/ophost/types"
+
 	"verifharness/mon"
+	"verifharness/sim"
 )
+
+// c10Reentrant: while a deposit's coins are being moved into the escrow, code running inside that transfer (a send
+// restriction, a transfer hook of the host chain) makes another deposit into the same bridge. Both are deposits in their
+// own right: each gets its own consecutive sequence number, returned and announced once.
+func c10Reentrant(run *mon.Run) {
+	run.Declare("C10.reentrant_deposits_get_own_sequences", 3)
+	for _, sameUser := range []bool{true, false} {
+		for _, depth := range []int{1, 2} {
+			onSend := new(func(ctx context.Context, from, to sdk.AccAddress, amt sdk.Coins))
+			env := newL1EnvOpts(2, []time.Duration{5 * time.Second, 5 * time.Second}, sim.L1Opts{WrapBank: func(b ophosttypes.BankKeeper) ophosttypes.BankKeeper {
+				return sim.HookedBank{BankKeeper: b, OnSend: onSend}
+			}})
+			outer, inner := env.Users[1], env.Users[2]
+			if sameUser {
+				inner = outer
+			}
+			var innerSeqs []uint64
+			var innerEvents []string
+			level := 0
+			*onSend = func(ctx context.Context, from, to sdk.AccAddress, amt sdk.Coins) {
+				if level >= depth || !to.Equals(ophosttypes.BridgeAddress(1)) {
+					return
+				}
+				level++
+				defer func() { level--; _ = recover() }()
+				m := ophosttypes.NewMsgInitiateTokenDeposit(inner.String(), 1, "l2inner", sdk.NewCoin("uinit", math.NewInt(7)), nil)
+				sctx := sdk.UnwrapSDKContext(ctx).WithEventManager(sdk.NewEventManager())
+				if res, err := env.L1.Router.Handler(m)(sctx, m); err == nil {
+					for _, any := range res.MsgResponses {
+						if r, ok := any.GetCachedValue().(*ophosttypes.MsgInitiateTokenDepositResponse); ok {
+							innerSeqs = append(innerSeqs, r.Sequence)
+						}
+					}
+					for _, ev := range res.Events {
+						if ev.Type == ophosttypes.EventTypeInitiateTokenDeposit {
+							v, _ := sim.Attr(ev, ophosttypes.AttributeKeyL1Sequence)
+							innerEvents = append(innerEvents, v)
+						}
+					}
+				}
+			}
+			res := env.L1.Deliver(ophosttypes.NewMsgInitiateTokenDeposit(outer.String(), 1, "l2outer", sdk.NewCoin("uinit", math.NewInt(100)), nil))
+			*onSend = nil
+			run.Evaluations++
+			var outerSeq uint64
+			if res.Class == sim.OK {
+				outerSeq = res.Resp().(*ophosttypes.MsgInitiateTokenDepositResponse).Sequence
+			}
+			next, _ := env.L1.Q.NextL1Sequence(env.L1.Ctx, &ophosttypes.QueryNextL1SequenceRequest{BridgeId: 1})
+			seen := map[uint64]int{outerSeq: 1}
+			for _, s := range innerSeqs {
+				seen[s]++
+			}
+			ok := res.Class == sim.OK && len(innerSeqs) == depth && next != nil && next.NextL1Sequence == uint64(depth)+2
+			for s := uint64(1); s <= uint64(depth)+1; s++ {
+				ok = ok && seen[s] == 1
+			}
+			for i, s := range innerSeqs {
+				ok = ok && i < len(innerEvents) && innerEvents[i] == strconv.FormatUint(s, 10)
+			}
+			tr := []string{fmt.Sprintf("deposit by %s into bridge 1 -> %s sequence %d; %d deposit(s) made from inside its escrow transfer returned sequences %v (announced %v); next sequence query %v", outer.Name, res.Class, outerSeq, depth, innerSeqs, innerEvents, next)}
+			run.Check("C10.reentrant_deposits_get_own_sequences", ok, "c10.reentrant_sequence_shared", tr, "deposits made while another deposit's transfer is in flight do not all carry their own consecutive sequence: outer %d, inner %v, next %v", outerSeq, innerSeqs, next)
+			run.Distinct(fmt.Sprintf("C10/reentrant/sameuser=%v/depth=%d", sameUser, depth))
+		}
+	}
+}
 
 func init() { register("C10", "exploration", checkC10) }
 
@@ -14,6 +89,7 @@ func checkC10(run *mon.Run, rng *mon.Rand, thorough bool) {
 	for _, c := range []string{"C10.sequence_gap_free", "C10.exactly_one_event", "C10.event_faithful", "C10.next_sequence_query", "C10.token_pairs_fixed", "C10.real_bridges_only", "C10.fresh_bridge_clean", "C10.nothing_prerecorded", "C10.announced_amount_was_moved"} {
 		run.Declare(c, 20)
 	}
+	c10Reentrant(run)
 	hist := pick(thorough, 24, 300)
 	steps := pick(thorough, 200, 500)
 	for h := 0; h < hist && !run.TooMany(); h++ {
